@@ -57,46 +57,35 @@ def impl_blocks(ts, unphased):
 
 
 # ---------------------------------------------------------------- model side
-def coq_case(ts, mask, unphased, small):
-    es = S.coq_edges(ts)
-    ins, rem = S.coq_index(ts)
-    L = cZ(int(ts.sequence_length))
-    smp = S.coq_bools(S.is_sample_list(ts))
-    msk = S.coq_bools(mask)
-    muts = S.coq_muts(ts)
-    nind = clist(ts.nodes_individual, lambda i: cZ(int(i)))
-    unph = S.coq_bools(unphased)
-    tsk_medge = clist(S.ref_mutation_edges(ts), cZ)
-    nn = cnat(ts.num_nodes)
+def coq_case(k, ts, mask, unphased, small):
+    """(definitions, term) for case number k"""
+    defs = (S.coq_table_defs(k, ts)
+            + "Definition msk%d := %s.\nDefinition unph%d := %s.\nDefinition tmedge%d := %s.\n"
+            % (k, S.coq_bools(mask), k, S.coq_bools(unphased) if unphased else "@nil bool",
+               k, clist(S.ref_mutation_edges(ts), cZ) if ts.num_mutations else "@nil Z"))
+    d = {"k": k, "nn": cnat(ts.num_nodes)}
     if small:
-        ref = ("Some (map (ref_mutation_edge es) muts, "
-               "map (ref_edge_count es muts) (edge_ids es), "
-               "map (ref_edge_count_sb es %s (of_list false %s) muts) (edge_ids es), "
-               "map (ref_edge_span_sb es %s (of_list false %s)) (edge_ids es), "
-               "map (fun i => if nth i %s false then ref_blocks es (of_list (-1) nind) muts %s i else []) (seq 0 (length %s)))"
-               % (nn, msk, nn, msk, unph, L, unph))
+        ref = ("Some (map (ref_mutation_edge es%(k)d) muts%(k)d, "
+               "map (ref_edge_count es%(k)d muts%(k)d) (edge_ids es%(k)d), "
+               "map (ref_edge_count_sb es%(k)d %(nn)s (of_list false msk%(k)d) muts%(k)d) (edge_ids es%(k)d), "
+               "map (ref_edge_span_sb es%(k)d %(nn)s (of_list false msk%(k)d)) (edge_ids es%(k)d), "
+               "map (fun i => if nth i unph%(k)d false then ref_blocks es%(k)d (of_list (-1)%%Z nind%(k)d) muts%(k)d L%(k)d i else []) "
+               "(seq 0%%nat (length unph%(k)d)))" % d)
     else:
         ref = "@None (list Z * list Z * list Z * list Z * list (list (Z * Z * list nat)))"
-    return ("(let es := %s in let ins := %s in let rem := %s in let muts := %s in let nind := %s in "
-            "(valid_tablesb %s es ins rem, "
-            "count_mutations_list es %s false muts %s ins rem, "
-            "count_mutations_list es %s true muts %s ins rem, "
-            "count_mutations_list es %s false muts %s ins rem, "
-            "count_mutations_list es %s true muts %s ins rem, "
-            "mutation_span_array es %s, "
-            "block_singletons_list es %s nind muts %s ins rem, %s))"
-            % (es, ins, rem, muts, nind, L, L, smp, L, smp, L, msk, L, msk, tsk_medge, unph, L, ref))
+    term = ("(valid_tablesb L%(k)d es%(k)d ins%(k)d rem%(k)d, "
+            "count_mutations_list es%(k)d L%(k)d false muts%(k)d smp%(k)d ins%(k)d rem%(k)d, "
+            "count_mutations_list es%(k)d L%(k)d true muts%(k)d smp%(k)d ins%(k)d rem%(k)d, "
+            "count_mutations_list es%(k)d L%(k)d false muts%(k)d msk%(k)d ins%(k)d rem%(k)d, "
+            "count_mutations_list es%(k)d L%(k)d true muts%(k)d msk%(k)d ins%(k)d rem%(k)d, "
+            "mutation_span_array es%(k)d tmedge%(k)d, "
+            "block_singletons_list es%(k)d unph%(k)d nind%(k)d muts%(k)d L%(k)d ins%(k)d rem%(k)d, " % d) + ref + ")"
+    return defs, term
 
 
 def run_model(ctx, items):
-    out = []
-    for i in range(0, len(items), 200):
-        chunk = items[i:i + 200]
-        body = "".join("Eval vm_compute in %s.\n" % coq_case(*it) for it in chunk)
-        res = ctx.coq_eval(body, requires=("lib.Tables", "model.Sweep", "model.BlockSingletons"), tag="tally")
-        assert len(res) == len(chunk), (len(res), len(chunk))
-        out.extend(res)
-    return out
+    texts = [coq_case(k, *it) for k, it in enumerate(items)]
+    return S.coq_run_cases(ctx, texts, ("lib.Tables", "model.Sweep", "model.BlockSingletons"), "tally")
 
 
 def unopt(v):
@@ -230,14 +219,15 @@ def oracle_blocks(ctx, ts, unphased, kind, got):
         ok = g["blocks"] == want["blocks"] and g["mut"] == want["mut"]
         if ok:
             continue
-        if want["lone"] and g["blocks"] == k8[i]["blocks"] and g["mut"] == k8[i]["mut"]:
+        if (want["lone"] or want["stray"]) and g["blocks"] == k8[i]["blocks"] and g["mut"] == k8[i]["mut"]:
             ctx.oracle_fail(K8_SIG + ":carried-singletons",
-                            "individual %d: singletons seen while only one leaf branch exists are counted into a later block" % i, rp)
+                            "individual %d: singletons seen while no block is open (one or both leaf branches absent) "
+                            "are counted into a later block" % i, rp)
         else:
             what = "blocks" if g["blocks"] != want["blocks"] else "mutations_block"
             ctx.oracle_fail("blocks:%s" % what,
                             "individual %d: got %r, definition gives %r" % (i, g, want), rp)
-    if not any_lone and len(bedges) != nrows_expected:
+    if not any_lone and not any(v["stray"] for v in spec.values()) and len(bedges) != nrows_expected:
         ctx.oracle_fail("blocks:row-count", "%d block rows, definition gives %d" % (len(bedges), nrows_expected), rp)
 
 
